@@ -37,7 +37,7 @@ func Unstuff(stream []byte) (body, rest []byte, complete bool) {
 
 // DotStuffNormalize is what a client-side dot writer is documented to do to
 // a message before it is sent: bare LF becomes CRLF, a final CRLF is ensured
-// (an empty message stays empty). The result is what a faithful server hands
+// (so an empty message becomes a single CRLF). The result is what a faithful server hands
 // to its backend (dot-stuffing is undone on the way). CR is assumed to occur
 // only as part of CRLF.
 func DotStuffNormalize(msg []byte) []byte {
@@ -50,7 +50,7 @@ func DotStuffNormalize(msg []byte) []byte {
 		}
 		out = append(out, c)
 	}
-	if len(out) > 0 && !bytes.HasSuffix(out, []byte("\r\n")) {
+	if !bytes.HasSuffix(out, []byte("\r\n")) {
 		out = append(out, '\r', '\n')
 	}
 	return out
